@@ -1044,6 +1044,178 @@ def unfold_walrus(trees, log):
         log.append(f'N4 {count} assignment expression(s) in loop / branch conditions unfolded into statements')
 
 
+class _BetaReduce(ast.NodeTransformer):
+    """getattr(x, 'name') -> x.name;  f(*(<literal tuple>)) -> f(<elements>);  (lambda a: E)(x) -> E[a := x] for atomic x"""
+
+    def visit_Call(self, node):
+        self.generic_visit(node)
+        # getattr(x, 'name')
+        if isinstance(node.func, ast.Name) and node.func.id == 'getattr' and len(node.args) == 2 and not node.keywords \
+                and isinstance(node.args[1], ast.Constant) and isinstance(node.args[1].value, str) and node.args[1].value.isidentifier():
+            return ast.copy_location(ast.Attribute(value=node.args[0], attr=node.args[1].value, ctx=ast.Load()), node)
+        # f(*(...)) with a literal tuple / list
+        if any(isinstance(a, ast.Starred) and isinstance(a.value, (ast.Tuple, ast.List)) for a in node.args):
+            args = []
+            for a in node.args:
+                if isinstance(a, ast.Starred) and isinstance(a.value, (ast.Tuple, ast.List)):
+                    args.extend(a.value.elts)
+                else:
+                    args.append(a)
+            node.args = args
+        # (lambda params: E)(args)
+        if isinstance(node.func, ast.Lambda) and not node.keywords:
+            lam = node.func
+            ps = [a.arg for a in lam.args.args]
+            if not lam.args.vararg and not lam.args.kwarg and not lam.args.kwonlyargs and not lam.args.defaults and len(ps) == len(node.args) \
+                    and all(_atomic(a) for a in node.args):
+                m = dict(zip(ps, node.args))
+                return ast.copy_location(_Subst(m, {}).visit(copy.deepcopy(lam.body)), node)
+        return node
+
+
+def unroll_table_loops(trees, base, log):
+    """`for a, b in TABLE: BODY` where TABLE is a literal tuple / list of tuples bound once (module level, class body, or returned by
+    a new zero-argument method that only returns the literal) and whose elements evaluate nothing (names, constants, attribute
+    references, lambdas): the loop becomes BODY once per row, in order, with the row's expressions in place of the loop variables."""
+    mod_tables = {}      # (module, name) -> literal
+    cls_tables = {}      # attr name -> [literal]
+    ret_tables = {}      # method name -> [(cls, literal)]
+
+    def literal_rows(v):
+        if isinstance(v, (ast.Tuple, ast.List)) and v.elts and len(v.elts) <= 40:
+            return v.elts
+        return None
+
+    def pure_elem(e):
+        for x in ast.walk(e):
+            if isinstance(x, ast.Lambda):
+                continue
+        stack = [e]
+        while stack:
+            x = stack.pop()
+            if isinstance(x, ast.Lambda):
+                continue                      # evaluated only when called
+            if isinstance(x, (ast.Call, ast.NamedExpr, ast.Await, ast.Yield, ast.YieldFrom, ast.Subscript, ast.BinOp, ast.Compare, ast.BoolOp, ast.IfExp,
+                              ast.ListComp, ast.SetComp, ast.DictComp, ast.GeneratorExp)):
+                return False
+            stack.extend(ast.iter_child_nodes(x))
+        return True
+    for mname, tree in trees.items():
+        stores = {}
+        for st in tree.body:
+            if isinstance(st, (ast.Assign, ast.AnnAssign)):
+                n_, v_ = _single_name_assign(st)
+                if n_ is not None:
+                    stores.setdefault(n_, []).append(v_)
+        bm = base.get(mname, {})
+        for n_, vs in stores.items():
+            if len(vs) == 1 and literal_rows(vs[0]) is not None and n_ not in bm.get('consts', ()):
+                mod_tables[(mname, n_)] = vs[0]           # (a table the baseline already had is looped over there as well: left alone)
+        for c in tree.body:
+            if isinstance(c, ast.ClassDef):
+                cst = {}
+                for st in c.body:
+                    if isinstance(st, (ast.Assign, ast.AnnAssign)):
+                        n_, v_ = _single_name_assign(st)
+                        if n_ is not None:
+                            cst.setdefault(n_, []).append(v_)
+                    elif isinstance(st, ast.FunctionDef) and len(st.args.args) == 1 and not st.decorator_list:
+                        b = _body(st)
+                        known = base.get(mname, {}).get('classes', {}).get(c.name, {}).get('methods', {})
+                        if len(b) == 1 and isinstance(b[0], ast.Return) and b[0].value is not None and literal_rows(b[0].value) is not None and st.name not in known:
+                            ret_tables.setdefault(st.name, []).append((c.name, b[0].value, st))
+                for n_, vs in cst.items():
+                    if len(vs) == 1 and literal_rows(vs[0]) is not None and n_ not in base.get(mname, {}).get('classes', {}).get(c.name, {}).get('consts', ()):
+                        cls_tables.setdefault(n_, []).append(vs[0])
+    # a table that is written anywhere (item store, mutator call, re-binding through an attribute) is not a constant
+    tainted = set()
+    for tree in trees.values():
+        for x in ast.walk(tree):
+            if isinstance(x, ast.Subscript) and isinstance(x.ctx, (ast.Store, ast.Del)):
+                b = x.value
+                tainted.add(b.id if isinstance(b, ast.Name) else b.attr if isinstance(b, ast.Attribute) else None)
+            elif isinstance(x, ast.Attribute) and isinstance(x.ctx, (ast.Store, ast.Del)):
+                tainted.add(x.attr)
+            elif isinstance(x, ast.Global):
+                tainted.update(x.names)
+            elif isinstance(x, ast.Call) and isinstance(x.func, ast.Attribute) and x.func.attr in ('append', 'extend', 'insert', 'remove', 'pop', 'clear', 'sort', 'reverse'):
+                b = x.func.value
+                tainted.add(b.id if isinstance(b, ast.Name) else b.attr if isinstance(b, ast.Attribute) else None)
+    count = 0
+    used_methods = set()
+
+    def resolve(it, mname):
+        if isinstance(it, ast.Name) and (mname, it.id) in mod_tables and it.id not in tainted:
+            return mod_tables[(mname, it.id)]
+        if isinstance(it, ast.Attribute) and isinstance(it.value, ast.Name) and it.attr not in tainted and len(cls_tables.get(it.attr, ())) == 1:
+            return cls_tables[it.attr][0]
+        if isinstance(it, ast.Call) and not it.args and not it.keywords and isinstance(it.func, ast.Attribute) and _txt(it.func.value) == 'self' \
+                and len(ret_tables.get(it.func.attr, ())) == 1:
+            used_methods.add(it.func.attr)
+            return ret_tables[it.func.attr][0][1]
+        return None
+
+    def block(stmts, mname, locals_):
+        nonlocal count
+        out = []
+        for st in stmts:
+            for field in ('body', 'orelse', 'finalbody'):
+                v = getattr(st, field, None)
+                if isinstance(v, list) and v and isinstance(v[0], ast.stmt) and not isinstance(st, (ast.FunctionDef, ast.AsyncFunctionDef, ast.ClassDef)):
+                    setattr(st, field, block(v, mname, locals_))
+            if isinstance(st, ast.Try):
+                for h in st.handlers:
+                    h.body = block(h.body, mname, locals_)
+            if isinstance(st, ast.For) and not st.orelse and len(st.body) <= 4:
+                if isinstance(st.iter, ast.Name) and st.iter.id in locals_:
+                    out.append(st)
+                    continue
+                table = resolve(st.iter, mname)
+                rows = literal_rows(table) if table is not None else None
+                tg = st.target.elts if isinstance(st.target, (ast.Tuple, ast.List)) else [st.target]
+                if rows is not None and all(isinstance(t, ast.Name) for t in tg) \
+                        and not any(isinstance(x, (ast.Break, ast.Continue, ast.Return, ast.Yield, ast.YieldFrom)) for b in st.body for x in ast.walk(b)) \
+                        and not any(isinstance(x, ast.Name) and isinstance(x.ctx, (ast.Store, ast.Del)) and x.id in {t.id for t in tg} for b in st.body for x in ast.walk(b)):
+                    names = [t.id for t in tg]
+                    okr = True
+                    for r in rows:
+                        parts = r.elts if (isinstance(st.target, (ast.Tuple, ast.List)) and isinstance(r, (ast.Tuple, ast.List))) else [r]
+                        if len(parts) != len(names) or not all(pure_elem(p_) for p_ in parts):
+                            okr = False
+                            break
+                    if okr:
+                        for r in rows:
+                            parts = r.elts if isinstance(st.target, (ast.Tuple, ast.List)) else [r]
+                            m = dict(zip(names, parts))
+                            for b in st.body:
+                                nb = _Subst(m, {}).visit(copy.deepcopy(b))
+                                nb = _BetaReduce().visit(nb)
+                                for x in ast.walk(nb):
+                                    if hasattr(x, 'lineno'):
+                                        x.lineno = getattr(r, 'lineno', x.lineno)
+                                ast.fix_missing_locations(nb)
+                                out.append(nb)
+                        count += 1
+                        continue
+            out.append(st)
+        return out
+    for mname, tree in trees.items():
+        for n in ast.walk(tree):
+            if isinstance(n, (ast.FunctionDef, ast.AsyncFunctionDef)) and any(isinstance(x, ast.For) for x in ast.walk(n)):
+                n.body = block(n.body, mname, _locals_of(n))
+    # table-returning methods that are no longer referenced go
+    for name in used_methods:
+        refs = sum(1 for tree in trees.values() for x in ast.walk(tree) if isinstance(x, ast.Attribute) and x.attr == name)
+        if refs == 0:
+            cname, _lit, fn = ret_tables[name][0]
+            for tree in trees.values():
+                for c in tree.body:
+                    if isinstance(c, ast.ClassDef) and fn in c.body:
+                        c.body.remove(fn)
+    if count:
+        log.append(f'N7 {count} loop(s) over a constant table of rows unrolled')
+
+
 def inline_generators(trees, base, log):
     """`for T in self.g(..): BODY` with g a new generator of the shape  <prefix>; <one loop whose body ends with the only `yield v`
     and otherwise leaves only through bare `return`>  becomes that loop with `T = v; BODY` in place of the yield and `break` in
@@ -1963,7 +2135,7 @@ def sentinel_continuation(fn, known_locals, log, where):
                     for (o, f) in lv:
                         blk = getattr(o, f)
                         n1, v1 = _single_name_assign(blk[-1])
-                        if n1 is not None and n1 in new_locals and isinstance(v1, ast.Constant) and (name is None or n1 == name):
+                        if n1 is not None and n1 in new_locals and (isinstance(v1, ast.Constant) or _num_literal(v1) is not None) and (name is None or n1 == name):
                             name = n1
                             lit.append((o, f, v1))
                         elif _terminates(blk):
@@ -1978,23 +2150,28 @@ def sentinel_continuation(fn, known_locals, log, where):
                         ob = getattr(*other[0])
                         if any(isinstance(x, ast.Name) and x.id == name and isinstance(x.ctx, ast.Store) for s_ in ob for x in ast.walk(s_)):
                             conts = []
+                            decided = True
                             for (o, f, v1) in lit:
-                                cont = copy.deepcopy(rest)
+                                first = copy.deepcopy(rest[0])
                                 rep_ = _ReplaceLoads(lambda nd, name=name, v1=v1: v1 if isinstance(nd, ast.Name) and nd.id == name else None)
-                                conts.append(_simplify_block([rep_.visit(x) for x in cont]))
-                            # only a sentinel: in every literal leaf the following code collapses to leaving the block at once
-                            if not all(len(c_) <= 2 and c_ and isinstance(c_[-1], (ast.Break, ast.Return, ast.Continue, ast.Raise)) for c_ in conts):
+                                first = rep_.visit(first)
+                                if _const_truth(first.test) is None:
+                                    decided = False
+                                conts.append(_simplify_block([first]))
+                            # only a sentinel: in every literal leaf the test that follows is decided by the literal
+                            if not decided:
                                 i += 1
                                 continue
                             for (o, f, v1), cont in zip(lit, conts):
                                 blk = getattr(o, f)
-                                setattr(o, f, blk + cont)            # the binding stays: the name may be read after the loop
+                                setattr(o, f, blk + cont)            # the binding stays: the name may be read later
                             o, f = other[0]
-                            setattr(o, f, getattr(o, f) + rest)
-                            del stmts[i + 1:]
-                            log.append(f'N4 {where}: sentinel {name} = literal folded into the code that follows ({len(lit)} literal leaf/leaves, 1 computing leaf)')
+                            setattr(o, f, getattr(o, f) + [rest[0]])
+                            del stmts[i + 1]                         # the statements after the test stay where they are, common to all leaves
+                            log.append(f'N4 {where}: test of the sentinel {name} moved into the {len(lit)} leaf/leaves that set it to a literal (decided there) and the leaf that computes it')
                             block(stmts[i:i + 1])
-                            return
+                            i += 1
+                            continue
             i += 1
     block(fn.body)
     ast.fix_missing_locations(fn)
@@ -2414,7 +2591,12 @@ def run(trees, baseline=None):
                         NON_NONE_CLASS_CONSTANTS.add(f'{c.name}.{k}')
     inline_generators(trees, base, log)
     unfold_walrus(trees, log)
+    unroll_table_loops(trees, base, log)
     inline_helpers(trees, base, log)
+    for t in trees.values():                      # getattr(x, 'literal') / f(*(literal tuple)) / (lambda ..)(..) exposed by constant arguments of inlined helpers
+        if any(isinstance(x, ast.Call) and ((isinstance(x.func, ast.Name) and x.func.id == 'getattr') or isinstance(x.func, ast.Lambda)
+                                           or any(isinstance(a, ast.Starred) for a in x.args)) for x in ast.walk(t)):
+            _BetaReduce().visit(t)
     propagate_locals(trees, base, log)
     strip_noops(trees, base, log)                 # conversions exposed by the propagation
     undo_renames(trees, base, log)                # renames whose usage profile only matches once the new helpers are gone
